@@ -149,7 +149,15 @@ def check_session(cid, cfg, history, *xs):
                     return 0
             if name == 'next' and not s.cpu.halted and \
                     s.depth() > depth0:
-                return 0
+                # (stopped on the header statement of a SUB / FUNCTION the
+                # frame instruction is still to run: executing it with
+                # `next` creates the activation that was already entered)
+                with NoTracing():
+                    entering = before is not None and \
+                        type(before.node).__name__ in ('SubStmt', 'FunctionStmt', 'SubBlock',
+                                                       'FunctionBlock')
+                if not entering:
+                    return 0
     s.finish()
     ftrace, fout = free_run(cid, cfg, xs)
     if s.exc is not None:
